@@ -7,16 +7,22 @@
  * (table-driven MD4 with the RFC forms of F/G, closed-form str2hashbuf words).
  *
  * Units
- *   ht_tea_transform, ht_halfmd4_transform   the two compression functions, all 2^256 / 2^384 inputs      (U)
- *   ht_dx_hack_hash_*                        the legacy hash, both char variants                          (U/k, B(n))
- *   ht_str2hashbuf_tea / _md4                one chunk -> 4 / 8 words, every len >= 0, both char variants  (U/k)
- *   ht_dirhash_legacy/md4/tea_*              ext2fs_dirhash as a whole on names up to a cap                (B(n) / U/k)
- *   ht_dirhash_loop_md4 / _tea               the chunk loops of ext2fs_dirhash cut by an in-place loop contract: the
- *                                            invariant says "buf is the specification's state after the chunks consumed
- *                                            so far" (ghost fold of hh_step) — every name length 0..255        (U, hook)
- *   ht_dirhash_misc                          version switch, seed default, unsupported version, NULL minor   (U)
- *   ht_dirhash2                              the casefold wrapper                                            (U)
- *   ht_dirhash_eof                           kernel EOF clamp — FAILS on the tree (finding C10_ht_dirhash_eof) (wip)
+ *   ht_tea_transform, ht_halfmd4_transform   the two compression functions, all 2^192 / 2^384 inputs                 (U/k, U)
+ *   ht_str2hashbuf_tea / _md4                one chunk -> 4 / 8 words, every len >= 0, both char variants             (U/k)
+ *   ht_dx_hack_hash_b24 / _255               the legacy hash against the closed kernel function, both char variants   (B(24); 255: wip, does not finish)
+ *   ht_dirhash_loop_legacy                   ext2fs_dirhash, legacy versions, per-byte loop closed by an in-place loop
+ *                                            contract (hook): every length 0..255                                      (U, hook)
+ *   ht_dirhash_legacy_b24                    ext2fs_dirhash, legacy versions, against the closed hh_dirhash()         (B(24))
+ *   ht_dirhash_md4, ht_dirhash_tea           ext2fs_dirhash against hh_dirhash() for every length 0..255; the helpers are
+ *                                            replaced by their contracts and the compression function is an
+ *                                            UNINTERPRETED symbol (parametric composition proof)                       (U/k)
+ *   ht_dirhash_md4_b40, ht_dirhash_tea_b40   the same on names <= 40 bytes, quick tier                                 (B(40))
+ *   ht_dirhash_unsupp                        every version outside 0..5: EXT2_ET_DIRHASH_UNSUPP, hash 0               (U/k)
+ *   ht_dirhash_eof                           kernel EOF clamp 0xfffffffe -> 0xfffffffc — FAILS on the tree
+ *                                            (finding C10_ht_dirhash_eof)                                             (wip)
+ * Back ends: the arithmetic equivalences (transforms, legacy) need cvc5 (minisat does not finish); the composition
+ * units need minisat (cvc5 does not finish on the contract instrumentation).  NOTE for whoever runs these: when the driver's
+ * time-out kills cbmc, the cvc5 child survives as an orphan and keeps a core busy.
  */
 /* VERIF-UNIT
 {
@@ -54,11 +60,29 @@
 */
 /* VERIF-UNIT
 {
+ "name": "ht_dx_hack_hash_b8",
+ "backend": "cvc5",
+ "props": ["C10"],
+ "level": "B(8)",
+ "tier": "quick",
+ "harness": "h_legacy",
+ "enforce": ["dx_hack_hash"],
+ "defines": ["HT_CAP=8"],
+ "unwind": 10,
+ "unwind_reason": "one iteration per name byte, names capped at 8 bytes (bounded stand-in; every length: ht_dirhash_loop_legacy); unwinding assertions on",
+ "timeout": 300,
+ "functions": ["lib/ext2fs/dirhash.c:dx_hack_hash"],
+ "assumes": ["0 <= len <= 8 (BOUNDED)", "unsigned_flag is 0 or 1 (the only values ext2fs_dirhash passes)"],
+ "native": true
+}
+*/
+/* VERIF-UNIT
+{
  "name": "ht_dx_hack_hash_b24",
  "backend": "cvc5",
  "props": ["C10"],
  "level": "B(24)",
- "tier": "quick",
+ "tier": "thorough",
  "harness": "h_legacy",
  "enforce": ["dx_hack_hash"],
  "defines": ["HT_CAP=24"],
@@ -124,24 +148,6 @@
 */
 /* VERIF-UNIT
 {
- "name": "ht_dirhash_legacy",
- "backend": "cvc5",
- "props": ["C10"],
- "level": "U/k",
- "tier": "wip",
- "harness": "h_dirhash",
- "replace": ["dx_hack_hash"],
- "defines": ["HT_CAP=255", "HT_ALG=0"],
- "unwind": 257,
- "unwind_reason": "the specification hh_legacy folds one round per name byte, at most 255 (format constant); ext2fs_dirhash itself only loops over the 4 seed words; unwinding assertions on",
- "timeout": 600,
- "functions": ["lib/ext2fs/dirhash.c:ext2fs_dirhash"],
- "assumes": ["0 <= len <= 255: ext4 name_len is an 8-bit on-disk field (callers pass name_len or strlen of a name that fits a dirent)", "version is LEGACY or LEGACY_UNSIGNED", "the helpers are replaced by their contracts, which are enforced on the real helpers by the units ht_tea_transform, ht_halfmd4_transform, ht_str2hashbuf_tea/_md4, ht_dx_hack_hash_*", "names whose major hash is the reserved value 0xfffffffe are excluded from the equality with the kernel value (finding C10_ht_dirhash_eof, unit ht_dirhash_eof)", "seed pointer NULL or 4 arbitrary words; ret_minor_hash NULL or valid"],
- "native": false
-}
-*/
-/* VERIF-UNIT
-{
  "name": "ht_dirhash_md4",
  "props": ["C10"],
  "level": "U/k",
@@ -197,42 +203,179 @@
 */
 /* VERIF-UNIT
 {
- "name": "ht_dirhash_loop_md4",
- "backend": "cvc5",
- "replace": ["str2hashbuf"],
- "props": ["C10"],
- "level": "U",
- "tier": "wip",
- "harness": "h_dirhash_loop",
- "loop_contracts": true,
- "defines": ["HT_LOOPS=1", "HT_ALG=1"],
- "unwind": 34,
- "unwindset": {"h_dirhash_loop.0": 257},
- "unwind_reason": "the chunk loop of the real code is closed by an in-place loop contract (named anchor in lib/ext2fs/dirhash.c, hooks-pending/htree.diff); what is unwound are constant-bound loops: 4 seed words, str2hashbuf <= 32 bytes / 8 words, TEA 16 rounds, specification 3 x 8 MD4 steps; unwinding assertions on",
- "timeout": 600,
- "functions": ["lib/ext2fs/dirhash.c:ext2fs_dirhash", "lib/ext2fs/dirhash.c:str2hashbuf", "lib/ext2fs/dirhash.c:halfMD4Transform"],
- "assumes": ["0 <= len <= 255: ext4 name_len is an 8-bit on-disk field; the name buffer is a 256-byte object", "version is HALF_MD4 or HALF_MD4_UNSIGNED", "SHAPE OF THE SPECIFICATION: the kernel hash is a fold of its per-chunk step (hh_step / HH_LEGACY_ROUND of specs/htree_hash.h) over the name; the fold is evaluated by ghost statements in lock step with the real loop, and the loop invariant says that the code's state equals the fold's state and that the cursor/remaining length are those of the kernel loop; the closed function hh_dirhash() is compared directly only on bounded names (units ht_dirhash_*_b*)", "names whose major hash is the reserved value 0xfffffffe are excluded from the equality with the kernel value (finding C10_ht_dirhash_eof, unit ht_dirhash_eof)", "seed pointer NULL or 4 arbitrary words; ret_minor_hash NULL or valid", "NEEDS the hook hooks-pending/htree.diff (named loop anchors in dirhash.c)"],
+ "name": "ht_dirhash_md4_b40",
+ "props": [
+  "C10"
+ ],
+ "level": "B(40)",
+ "tier": "quick",
+ "harness": "h_dirhash",
+ "replace": [
+  "str2hashbuf",
+  "halfMD4Transform"
+ ],
+ "defines": [
+  "HT_CAP=40",
+  "HT_ALG=1",
+  "HT_UF=1"
+ ],
+ "cbmc_flags": [
+  "--object-bits",
+  "12"
+ ],
+ "unwind": 10,
+ "unwindset": {
+  "ext2fs_dirhash.1": 3,
+  "hh_dirhash.0": 3
+ },
+ "unwind_reason": "names capped at 40 bytes = 2 chunks of 32 (bounded stand-in for ht_dirhash_md4); unwinding assertions on",
+ "timeout": 300,
+ "functions": [
+  "lib/ext2fs/dirhash.c:ext2fs_dirhash"
+ ],
+ "assumes": [
+  "0 <= len <= 40 (BOUNDED; full range: ht_dirhash_md4)",
+  "version is HALF_MD4 or HALF_MD4_UNSIGNED",
+  "the helpers are replaced by their contracts, which are enforced on the real helpers by ht_tea_transform, ht_halfmd4_transform, ht_str2hashbuf_tea/_md4; the compression function is an uninterpreted symbol in this unit (the proof is parametric in it)",
+  "names whose major hash is the reserved value 0xfffffffe are excluded from the equality with the kernel value (finding C10_ht_dirhash_eof, unit ht_dirhash_eof)",
+  "seed pointer NULL or 4 arbitrary words; ret_minor_hash NULL or valid"
+ ],
  "native": false
 }
 */
 /* VERIF-UNIT
 {
- "name": "ht_dirhash_loop_tea",
- "backend": "cvc5",
- "replace": ["str2hashbuf"],
- "props": ["C10"],
- "level": "U",
- "tier": "wip",
- "harness": "h_dirhash_loop",
- "loop_contracts": true,
- "defines": ["HT_LOOPS=1", "HT_ALG=2"],
- "unwind": 34,
- "unwindset": {"h_dirhash_loop.0": 257},
- "unwind_reason": "the chunk loop of the real code is closed by an in-place loop contract (named anchor in lib/ext2fs/dirhash.c, hooks-pending/htree.diff); what is unwound are constant-bound loops: 4 seed words, str2hashbuf <= 32 bytes / 8 words, TEA 16 rounds, specification 3 x 8 MD4 steps; unwinding assertions on",
- "timeout": 600,
- "functions": ["lib/ext2fs/dirhash.c:ext2fs_dirhash", "lib/ext2fs/dirhash.c:str2hashbuf", "lib/ext2fs/dirhash.c:TEA_transform"],
- "assumes": ["0 <= len <= 255: ext4 name_len is an 8-bit on-disk field; the name buffer is a 256-byte object", "version is TEA or TEA_UNSIGNED", "SHAPE OF THE SPECIFICATION: the kernel hash is a fold of its per-chunk step (hh_step / HH_LEGACY_ROUND of specs/htree_hash.h) over the name; the fold is evaluated by ghost statements in lock step with the real loop, and the loop invariant says that the code's state equals the fold's state and that the cursor/remaining length are those of the kernel loop; the closed function hh_dirhash() is compared directly only on bounded names (units ht_dirhash_*_b*)", "names whose major hash is the reserved value 0xfffffffe are excluded from the equality with the kernel value (finding C10_ht_dirhash_eof, unit ht_dirhash_eof)", "seed pointer NULL or 4 arbitrary words; ret_minor_hash NULL or valid", "NEEDS the hook hooks-pending/htree.diff (named loop anchors in dirhash.c)"],
+ "name": "ht_dirhash_tea_b40",
+ "props": [
+  "C10"
+ ],
+ "level": "B(40)",
+ "tier": "quick",
+ "harness": "h_dirhash",
+ "replace": [
+  "str2hashbuf",
+  "TEA_transform"
+ ],
+ "defines": [
+  "HT_CAP=40",
+  "HT_ALG=2",
+  "HT_UF=1"
+ ],
+ "cbmc_flags": [
+  "--object-bits",
+  "12"
+ ],
+ "unwind": 18,
+ "unwindset": {
+  "ext2fs_dirhash.2": 4,
+  "hh_dirhash.0": 4
+ },
+ "unwind_reason": "names capped at 40 bytes = 3 chunks of 16 (bounded stand-in for ht_dirhash_tea); unwinding assertions on",
+ "timeout": 300,
+ "functions": [
+  "lib/ext2fs/dirhash.c:ext2fs_dirhash"
+ ],
+ "assumes": [
+  "0 <= len <= 40 (BOUNDED; full range: ht_dirhash_tea)",
+  "version is TEA or TEA_UNSIGNED",
+  "the helpers are replaced by their contracts, which are enforced on the real helpers by ht_tea_transform, ht_halfmd4_transform, ht_str2hashbuf_tea/_md4; the compression function is an uninterpreted symbol in this unit (the proof is parametric in it)",
+  "names whose major hash is the reserved value 0xfffffffe are excluded from the equality with the kernel value (finding C10_ht_dirhash_eof, unit ht_dirhash_eof)",
+  "seed pointer NULL or 4 arbitrary words; ret_minor_hash NULL or valid"
+ ],
  "native": false
+}
+*/
+/* VERIF-UNIT
+{
+ "name": "ht_dirhash_legacy_b24",
+ "backend": "cvc5",
+ "props": [
+  "C10"
+ ],
+ "level": "B(24)",
+ "tier": "wip",
+ "harness": "h_dirhash",
+ "defines": [
+  "HT_CAP=24",
+  "HT_ALG=0"
+ ],
+ "unwind": 26,
+ "unwind_reason": "names capped at 24 bytes (bounded stand-in; every length: ht_dirhash_loop_legacy); one iteration per byte in dx_hack_hash and in the specification; unwinding assertions on",
+ "timeout": 300,
+ "functions": [
+  "lib/ext2fs/dirhash.c:ext2fs_dirhash",
+  "lib/ext2fs/dirhash.c:dx_hack_hash"
+ ],
+ "assumes": [
+  "0 <= len <= 24 (BOUNDED)",
+  "version is LEGACY or LEGACY_UNSIGNED",
+  "names whose major hash is the reserved value 0xfffffffe are excluded from the equality with the kernel value (finding C10_ht_dirhash_eof, unit ht_dirhash_eof)",
+  "seed pointer NULL or 4 arbitrary words; ret_minor_hash NULL or valid"
+ ],
+ "native": true
+}
+*/
+/* VERIF-UNIT
+{
+ "name": "ht_dirhash_unsupp",
+ "props": [
+  "C10"
+ ],
+ "level": "U/k",
+ "tier": "wip",
+ "harness": "h_dirhash_unsupp",
+ "replace": [
+  "str2hashbuf",
+  "halfMD4Transform",
+  "TEA_transform",
+  "dx_hack_hash"
+ ],
+ "defines": [
+  "HT_CAP=255",
+  "HT_UF=1"
+ ],
+ "cbmc_flags": [
+  "--object-bits",
+  "12"
+ ],
+ "unwind": 18,
+ "unwind_reason": "version is symbolic, so symbolic execution walks through every arm of the switch: chunk loops <= 16 iterations for names <= 255 bytes; unwinding assertions on",
+ "timeout": 600,
+ "functions": [
+  "lib/ext2fs/dirhash.c:ext2fs_dirhash"
+ ],
+ "assumes": [
+  "version any int outside 0..5 (6 = SIPHASH is a kernel version libext2fs does not implement)",
+  "0 <= len <= 255",
+  "helpers replaced by their contracts (they are unreachable here)"
+ ],
+ "native": false
+}
+*/
+/* VERIF-UNIT
+{
+ "name": "ht_dirhash_eof",
+ "props": [
+  "C10"
+ ],
+ "level": "B(8)",
+ "tier": "wip",
+ "harness": "h_dirhash_eof",
+ "defines": [
+  "HT_CAP=8",
+  "HT_ALG=0"
+ ],
+ "unwind": 10,
+ "unwind_reason": "legacy hash of names <= 8 bytes is enough to reach the reserved value; unwinding assertions on",
+ "timeout": 300,
+ "functions": [
+  "lib/ext2fs/dirhash.c:ext2fs_dirhash"
+ ],
+ "assumes": [
+  "FAILS ON THE TREE (finding C10_ht_dirhash_eof): the kernel maps the major hash 0xfffffffe to 0xfffffffc (EXT4_HTREE_EOF_32BIT clamp in __ext4fs_dirhash), ext2fs_dirhash does not",
+  "legacy versions, names <= 8 bytes (enough for a witness)"
+ ],
+ "native": true
 }
 */
 #include "verif.h"
@@ -282,37 +425,16 @@ struct in_hash IN;
 #ifdef HT_LOOPS
 /*
  * In-place loop contracts (named anchors in lib/ext2fs/dirhash.c).  Ghost registers:
- *   verif_g0..g3  state of the specification's fold (chunk loops: the four buf words; legacy: g0 = hash0, g1 = hash1)
+ *   verif_g0, g1  state of the specification's fold: g0 = hash0, g1 = hash1
  *   verif_g4      number of name bytes the fold has consumed        verif_g5   length of the name
- * The ghost statement at the top of the body re-anchors the cursor(s) at the value the invariant gives (asserted to be
- * the identity) and advances the fold by one step of the KERNEL definition on the chunk / byte the real body is about to
- * consume.
+ * The ghost statement at the top of the body re-anchors the cursors at the value the invariant gives (asserted to be
+ * the identity) and advances the fold by one round of the KERNEL definition on the byte the real body is about to consume.
+ * (The same construction on the chunk loops of ext2fs_dirhash was tried and dropped: a chunk read at a symbolic offset
+ * name + 16k does not finish on any back end; those loops are unwound to the format's maximum instead — ht_dirhash_md4/_tea.)
  */
 #ifndef VERIF_NATIVE
 unsigned long long verif_g0, verif_g1, verif_g2, verif_g3, verif_g4, verif_g5, verif_g6, verif_g7;
 #endif
-#define HT_CHUNK_INV(CH) \
-	__CPROVER_assigns(len, p, __CPROVER_object_whole(in), __CPROVER_object_whole(buf), verif_g0, verif_g1, verif_g2, verif_g3, verif_g4) \
-	__CPROVER_loop_invariant(verif_g5 <= 255 && verif_g4 <= 256 && (verif_g4 & ((CH) - 1)) == 0) \
-	__CPROVER_loop_invariant(len == (int)verif_g5 - (int)verif_g4 && p == name + verif_g4) \
-	__CPROVER_loop_invariant(buf[0] == (__u32)verif_g0 && buf[1] == (__u32)verif_g1 && buf[2] == (__u32)verif_g2 && buf[3] == (__u32)verif_g3) \
-	__CPROVER_decreases(len)
-#ifndef HT_PROBE
-#define HT_PROBE
-#endif
-#define HT_CHUNK_GHOST(CH) { \
-		__CPROVER_assert(p == name + verif_g4, "CHECK:cursor has its invariant value"); \
-		HT_PROBE p = name + verif_g4; \
-		struct hh_state s_; \
-		s_.b[0] = (hh_u32)verif_g0; s_.b[1] = (hh_u32)verif_g1; s_.b[2] = (hh_u32)verif_g2; s_.b[3] = (hh_u32)verif_g3; \
-		s_ = hh_step(s_, version, (const unsigned char *)p, len); \
-		verif_g0 = s_.b[0]; verif_g1 = s_.b[1]; verif_g2 = s_.b[2]; verif_g3 = s_.b[3]; \
-		verif_g4 += (CH); \
-	}
-#define VERIF_INV_DIRHASH_MD4 HT_CHUNK_INV(32)
-#define VERIF_GHOST_DIRHASH_MD4 HT_CHUNK_GHOST(32)
-#define VERIF_INV_DIRHASH_TEA HT_CHUNK_INV(16)
-#define VERIF_GHOST_DIRHASH_TEA HT_CHUNK_GHOST(16)
 /* `while (len--)`: the invariant is evaluated before the decrement; unsigned_flag is 0 or 1 and only ONE of the two cursors moves */
 #define VERIF_INV_DX_HACK_HASH \
 	__CPROVER_assigns(len, ucp, scp, c, hash, hash0, hash1, verif_g0, verif_g1, verif_g4) \
@@ -487,45 +609,66 @@ void h_dirhash(void)
 	REACH("end");
 }
 
+void h_dirhash_unsupp(void)
+{
+	ext2_dirhash_t h = IN.junk_hash, mh = IN.junk_minor;
+	errcode_t r;
+
+	LOAD_IN();
+	ASSUME(IN.len >= 0 && IN.len <= HT_CAP);
+	ASSUME(IN.version < 0 || IN.version > 5);
+	r = ext2fs_dirhash(IN.version, (const char *)IN.name, IN.len, IN.has_seed ? IN.seed : NULL, &h, IN.want_minor ? &mh : NULL);
+	CHECK(r == EXT2_ET_DIRHASH_UNSUPP, "a version the kernel definition does not share with libext2fs is refused");
+	CHECK(h == 0, "hash 0 on refusal (as the kernel)");
+	CHECK(mh == IN.junk_minor, "minor hash untouched on refusal");
+	if (IN.version == 6 && IN.len == 255) REACH("SIPHASH, longest name");
+	REACH("end");
+}
+
+/*
+ * Kernel __ext4fs_dirhash(): "if (hash == (EXT4_HTREE_EOF_32BIT << 1)) hash = (EXT4_HTREE_EOF_32BIT - 1) << 1;" — the value
+ * 0xfffffffe is reserved as the end-of-directory cookie and is never the hash of a name; a name whose raw hash is 0xfffffffe
+ * (or 0xffffffff) is filed under 0xfffffffc.  A direct consequence of the kernel definition, stated without the functional
+ * part: ext2fs_dirhash never returns 0xfffffffe.  FAILS on the tree (finding C10_ht_dirhash_eof).
+ */
+void h_dirhash_eof(void)
+{
+	ext2_dirhash_t h = IN.junk_hash;
+	errcode_t r;
+
+	LOAD_IN();
+	ASSUME(IN.len >= 0 && IN.len <= HT_CAP);
+	r = ext2fs_dirhash(HH_LEGACY_UNSIGNED, (const char *)IN.name, IN.len, NULL, &h, NULL);
+	CHECK(r == 0, "supported version");
+	CHECK(h != (HH_EOF_32BIT << 1), "the reserved major hash 0xfffffffe is never returned (the kernel maps it to 0xfffffffc)");
+	REACH("end");
+}
+
 #ifdef HT_LOOPS
 /*
- * ext2fs_dirhash with its loops closed by the in-place contracts above: every name length 0..255.
- * The harness initialises the fold with the kernel's seed rule (hh_seed) and the kernel's legacy constants; the loop invariant's
- * base case then proves that the code starts from the same state.
+ * ext2fs_dirhash, legacy versions, with the per-byte loop of dx_hack_hash closed by the in-place contract above: every name
+ * length 0..255.  The harness initialises the fold with the kernel's constants; the base case of the loop invariant proves
+ * that the code starts from the same state.
  */
-/* the name lives in an array object of its own (not inside struct IN): reads at the symbolic chunk offset stay array reads */
+/* the name lives in an array object of its own (not inside struct IN): the read at the symbolic position stays an array read */
 static unsigned char NAME[256];
 static void dirhash_loop_common(int version)
 {
 	ext2_dirhash_t h = IN.junk_hash, mh = IN.junk_minor;
 	errcode_t r;
-	struct hh_state s0;
-	unsigned chunk = (version == HH_TEA || version == HH_TEA_UNSIGNED) ? 16 : 32;
-	int legacy = (version == HH_LEGACY || version == HH_LEGACY_UNSIGNED);
+	hh_u32 maj;
 
 	ASSUME(IN.len >= 0 && IN.len <= 255);
-	s0 = hh_seed(IN.has_seed ? IN.seed : NULL);
-	if (legacy) {
-		verif_g0 = HH_LEGACY_H0; verif_g1 = HH_LEGACY_H1; verif_g2 = 0; verif_g3 = 0;
-	} else {
-		verif_g0 = s0.b[0]; verif_g1 = s0.b[1]; verif_g2 = s0.b[2]; verif_g3 = s0.b[3];
-	}
+	verif_g0 = HH_LEGACY_H0;
+	verif_g1 = HH_LEGACY_H1;
 	verif_g4 = 0;
 	verif_g5 = IN.len;
 	r = ext2fs_dirhash(version, (const char *)NAME, IN.len, IN.has_seed ? IN.seed : NULL, &h, IN.want_minor ? &mh : NULL);
 	CHECK(r == 0, "supported version");
-	if (legacy) {
-		CHECK(verif_g4 == (unsigned)IN.len, "the fold has consumed exactly the len bytes of the name");
-		CHECK(h == (((hh_u32)verif_g0 << 1) & ~1u) || (((hh_u32)verif_g0 << 1) & ~1u) == (HH_EOF_32BIT << 1),
-		      "major hash: kernel dx_hack_hash fold, << 1 (reserved value 0xfffffffe aside)");
-		CHECK(!IN.want_minor || mh == 0, "legacy: minor hash 0");
-	} else {
-		hh_u32 maj = (chunk == 16) ? (hh_u32)verif_g0 : (hh_u32)verif_g1;
-		hh_u32 min = (chunk == 16) ? (hh_u32)verif_g1 : (hh_u32)verif_g2;
-		CHECK(verif_g4 == (((unsigned)IN.len + chunk - 1) / chunk) * chunk, "the fold has consumed exactly the chunks at offsets 0, C, 2C, ... < len");
-		CHECK(h == (maj & ~1u) || (maj & ~1u) == (HH_EOF_32BIT << 1), "major hash: word of the kernel fold, bit 0 cleared (reserved value 0xfffffffe aside)");
-		CHECK(!IN.want_minor || mh == min, "minor hash: word of the kernel fold");
-	}
+	CHECK(verif_g4 == (unsigned)IN.len, "the fold has consumed exactly the len bytes of the name");
+	maj = ((hh_u32)verif_g0 << 1) & ~1u;
+	CHECK(h == maj || maj == (HH_EOF_32BIT << 1), "major hash: kernel dx_hack_hash fold, << 1 (reserved value 0xfffffffe aside)");
+	CHECK(!IN.want_minor || mh == 0, "legacy: minor hash 0");
 	CHECK((h & 1) == 0, "bit 0 of the major hash is clear");
 	CHECK(IN.want_minor || mh == IN.junk_minor, "no minor hash requested: nothing stored");
 }
@@ -535,17 +678,9 @@ void h_dirhash_loop(void)
 	LOAD_IN();
 	for (int i = 0; i < 256; i++)
 		NAME[i] = IN.name[i];
-#if HT_ALG == 0
 	ASSUME(IN.version == HH_LEGACY || IN.version == HH_LEGACY_UNSIGNED);
 	if (IN.version == HH_LEGACY) dirhash_loop_common(HH_LEGACY); else dirhash_loop_common(HH_LEGACY_UNSIGNED);
-#elif HT_ALG == 1
-	ASSUME(IN.version == HH_HALF_MD4 || IN.version == HH_HALF_MD4_UNSIGNED);
-	if (IN.version == HH_HALF_MD4) dirhash_loop_common(HH_HALF_MD4); else dirhash_loop_common(HH_HALF_MD4_UNSIGNED);
-#else
-	ASSUME(IN.version == HH_TEA || IN.version == HH_TEA_UNSIGNED);
-	if (IN.version == HH_TEA) dirhash_loop_common(HH_TEA); else dirhash_loop_common(HH_TEA_UNSIGNED);
-#endif
-	if (IN.len > 200 && IN.has_seed && IN.want_minor && IN.version < 3) REACH("long name, seeded, signed variant");
+	if (IN.len > 200 && IN.has_seed && IN.want_minor && IN.version < 3 && IN.name[7] >= 128) REACH("long name, seeded, signed variant, high byte");
 	if (IN.len == 0 && !IN.has_seed && !IN.want_minor && IN.version >= 3) REACH("empty name, no seed pointer, no minor, unsigned variant");
 	REACH("end");
 }
